@@ -33,7 +33,7 @@ m = {
     "setup_cmd": "./setup.sh",
     "hooks": {
         "guard": "verif",
-        "enable": "go build -tags verif (files named verif_export.go, //go:build verif, add-only exports)",
+        "enable": "go build -tags verif (files named verif_export.go and verif_export_c02.go in 13 packages, //go:build verif, add-only exports)",
         "baseline_off_cmd": "cd /repo && go build ./... && go test -vet=off -count=1 -timeout 25m ./...",
         "source_commits": hook_commits(),
         "add_only": True,
